@@ -711,7 +711,7 @@ pub fn run_c16(cfg: &Cfg) {
                 let d2 = |p: &[f64; 4], x: f64| 2.0 * p[2] + 6.0 * p[3] * x;
                 let (x0, xn) = (axv[0], axv[n - 1]);
                 let per: Vec<RowBc> = polys.iter().map(|p| {
-                    let mut side = |x: f64, rng: &mut Rng| match rng.below(3) {
+                    let mut side = |x: f64, rng: &mut Rng| match rng.below(4) {
                         0 => Single::FirstDeriv(d1(p, x)),
                         1 => Single::SecondDeriv(d2(p, x)),
                         _ => Single::NotAKnot,
@@ -721,7 +721,8 @@ pub fn run_c16(cfg: &Cfg) {
                     if n == 3 && l == Single::NotAKnot && r == Single::NotAKnot {
                         l = Single::FirstDeriv(d1(p, x0)); // 3-point NotAKnot pair only reproduces quadratics
                     }
-                    RowBc::Mixed(l, r)
+                    // the shorthand RowBoundary::NotAKnot must mean Mixed { NotAKnot, NotAKnot }
+                    if n >= 4 && l == Single::NotAKnot && r == Single::NotAKnot && rng.coin() { RowBc::NotAKnot } else { RowBc::Mixed(l, r) }
                 }).collect();
                 let mut shape = vec![1];
                 shape.extend_from_slice(&trail);
@@ -891,12 +892,25 @@ pub fn periodic_partial_mismatch(rep: &mut Report, rng: &mut Rng, thorough: bool
     for _ in 0..(if thorough { 300 } else { 40 }) {
         let n = rng.range(3, 8) as usize;
         let (axv, _class) = gen_spline_axis(rng, n);
-        let trail = match rng.below(3) { 0 => vec![2], 1 => vec![3], _ => vec![2, 2] };
+        let trail = match rng.below(4) { 0 => vec![2], 1 => vec![3], 2 => vec![], _ => vec![2, 2] };
         let lanes: usize = trail.iter().product();
         let mut rows = gen_rows(rng, n, lanes, true);
+        // the same data in several units: the verdict must not depend on the magnitude of the values
+        let unit = match rng.below(4) { 0 => (2.0f64).powi(20), 1 => (2.0f64).powi(-20), _ => 1.0 };
+        for r in rows.iter_mut() { for v in r.iter_mut() { *v *= unit; } }
         rows[n - 1] = rows[0].clone();
         let bad = rng.below(lanes as u64) as usize;
-        rows[n - 1][bad] = rows[0][bad] + 1.0;
+        // the mismatch: a whole unit, a relative 1e-6 / 1e-9 / 2^-43, or a single ulp -- unequal is unequal
+        let v0 = rows[0][bad];
+        rows[n - 1][bad] = match rng.below(6) {
+            0 => v0 + unit,
+            1 => if v0 != 0.0 { v0 * (1.0 + 1e-6) } else { 1e-6 * unit },
+            2 => if v0 != 0.0 { v0 * (1.0 + 1e-9) } else { 1e-9 * unit },
+            3 => if v0 != 0.0 { v0 * (1.0 + (2.0f64).powi(-43)) } else { (2.0f64).powi(-43) * unit },
+            4 => v0 + 5e-9 * unit,
+            _ => next_up(v0),
+        };
+        if rows[n - 1][bad] == v0 { rows[n - 1][bad] = next_up(v0); }
         let p = axv[n - 1] - axv[0];
         let sc = Scen1 { strat: Strat1::Spline(Bc::Periodic), ext: true, ax: Some(axv.clone()), rows, trail, queries: vec![axv[n - 1], axv[n - 1] + p] };
         arena_reset();
@@ -905,7 +919,7 @@ pub fn periodic_partial_mismatch(rep: &mut Report, rng: &mut Rng, thorough: bool
         rep.evaluations += 2;
         rep.count("partially-mismatched-ends");
         if rx.0 == BuildOut::Built || rf.0 == BuildOut::Built {
-            rep.fail(&format!("Periodic spline built although the first and last rows differ in lane {}: S(xn) and S(xn + P) disagree there", bad),
+            rep.fail(&format!("Periodic spline built although the first and last rows differ in lane {} ({:?} vs {:?}): S(xn) and S(xn + P) disagree there", bad, v0, sc.rows[n - 1][bad]),
                      obj(vec![("scenario", sc.to_json()), ("S_xn", out_json(&rx.1.get(0).cloned().unwrap_or(Out::Oob))), ("S_xn_plus_P", out_json(&rx.1.get(1).cloned().unwrap_or(Out::Oob)))]));
         }
     }
@@ -1022,12 +1036,6 @@ pub fn run_c15(cfg: &Cfg) {
             let o = SplineOpts { nmax: if thorough { 16 } else { 9 }, ext, allow_periodic: true, force_bc: None, outside: ext };
             let (mut sc, _c) = gen_spline_scen(&mut rng, &o);
             sc.ax = Some(sc.axis_vals());
-            if matches!(sc.strat, Strat1::Spline(Bc::Periodic)) && ext {
-                // keep C15 to non-periodic extrapolation (C07 covers the wrap)
-                sc.ext = false;
-                let a = sc.axis_vals();
-                sc.queries.retain(|&q| q >= a[0] && q <= a[a.len() - 1]);
-            }
             sc
         } else {
             let (mut sc, _f, _c) = crate::lin::gen_linear_scen(&mut rng, thorough, ext, ext);
@@ -1098,7 +1106,8 @@ pub fn run_c15(cfg: &Cfg) {
             // only differences of axis values and queries enter: for an exactly representable shift the f64
             // results are bit-identical (Periodic extrapolation adds x0 back after the wrap and is excluded above)
             rep.count("bitwise:shift");
-            if !tiny && !bits_eq(&v3.run::<f64>(), &basef) {
+            let periodic_ext = matches!(bc, Some(Bc::Periodic)) && sc.ext;
+            if !tiny && !periodic_ext && !bits_eq(&v3.run::<f64>(), &basef) {
                 rep.fail("shifting axis and queries by an exactly representable amount is not bit-for-bit (f64)", obj(vec![("base", sc.to_json()), ("shift", s(format!("{:?}", sh)))]));
             }
         }
@@ -1130,6 +1139,7 @@ pub fn run_c15(cfg: &Cfg) {
         }
         if ci < 2 { rep.sample(obj(vec![("base", sc.to_json()), ("data_factor", s(format!("{:?}", c))), ("axis_factor", s(format!("{:?}", ca))), ("shift", s(format!("{:?}", sh)))])); }
     }
+    periodic_partial_mismatch(&mut rep, &mut rng, thorough);
     rep.finish("metamorphic pairs on Linear, Bilinear (independent factors for x and y) and CubicSpline scenarios with every boundary kind: data * c (c = -1, 2^-20..2^20, random dyadic; boundary derivative values converted), axis and queries * 2^k, axis and queries shifted on a common dyadic grid, sum of two data sets; in range and extrapolated; exact run: relation holds exactly; f64: bit-for-bit for powers of two and negation; transformed scenarios also compared with the model in Coq");
 }
 
